@@ -71,7 +71,7 @@ pub fn compare(exp: &Exp, d: &Delta, home: u32, sem: bool, what: &str, cx: &mut 
     }
     if !ok {
         let f = if sem { Ctx::fail_derail } else { Ctx::fail };
-        f(cx, if sem { home } else { COUNT }, "rmw-traffic", format!("{}: counter writes differ: expected {:?} (block,size,kind,operand), got {:?}", what, exp.rmw, got.iter().map(|g| (g.addr, g.kind, g.arg)).collect::<Vec<_>>()));
+        f(cx, if sem { home } else { COUNT | (home & THIN) }, "rmw-traffic", format!("{}: counter writes differ: expected {:?} (block,size,kind,operand), got {:?}", what, exp.rmw, got.iter().map(|g| (g.addr, g.kind, g.arg)).collect::<Vec<_>>()));
     }
     // --- destructors
     let mut a = d.drops.clone();
